@@ -21,7 +21,10 @@
    IN_BUF(fp.lineStart) && OFF(fp.lineStart) <= OFF(fp.start) && \
    fp.line >= (entry_line) && \
    (size_t) (fp.line - (entry_line)) <= OFF(fp.start) - OFF(entry_start))
-#define TOK_POST TOK_STATE(__CPROVER_old(fp.start), __CPROVER_old(fp.line))
+/* (pointer predicates first: see CURSOR_POST) */
+#define TOK_POST \
+  (CUR_IN_BUF(fp.start) && __CPROVER_pointer_in_range_dfcc(verif_buf, fp.lineStart, fp.start) && \
+   TOK_STATE(__CPROVER_old(fp.start), __CPROVER_old(fp.line)))
 #define TOK_INV  TOK_STATE(__CPROVER_loop_entry(fp.start), __CPROVER_loop_entry(fp.line))
 #define TOK_SKIPPED     SKIPPED(__CPROVER_old(fp.start), fp.start)
 #define TOK_SKIPPED_INV SKIPPED(__CPROVER_loop_entry(fp.start), fp.start)
